@@ -117,8 +117,9 @@ type Exec struct {
 	MapRace   []string
 	Violations []Violation
 
-	mapMon map[uintptr]*mapAcc
-	Points int
+	mapMon   map[uintptr]*mapAcc
+	Points   int
+	counters map[string]uint64
 }
 
 // Debug prints every scheduling point (replay diagnostics).
@@ -154,6 +155,7 @@ func Run(cfg Config, chooser func(n int, cost bool, label string) int, body func
 		cfg.Horizon = 24 * time.Hour
 	}
 	epochSeq++
+	ptrOrder = map[uintptr]int{}
 	x := &Exec{cfg: cfg, epoch: epochSeq, chans: map[uintptr]*chanState{}, chooser: chooser,
 		abortAck: make(chan struct{}), doneCh: make(chan struct{}), mapMon: map[uintptr]*mapAcc{}}
 	cur = x
@@ -546,6 +548,41 @@ func callerSlow(pc uintptr) string {
 	}
 	return fmt.Sprintf("%s:%d", f, l)
 }
+
+// Counter returns 1,2,3,... per name, restarting with every execution
+// (deterministic ids for the code under test).
+func Counter(name string) uint64 {
+	x := cur
+	if x == nil {
+		return 0
+	}
+	if x.counters == nil {
+		x.counters = map[string]uint64{}
+	}
+	x.counters[name]++
+	return x.counters[name]
+}
+
+var tokenFeed chan struct{}
+
+func tokens() <-chan struct{} {
+	if tokenFeed == nil {
+		tokenFeed = make(chan struct{})
+		go func() { // real feeder goroutine, outside the controlled world: a token is always available
+			for {
+				tokenFeed <- struct{}{}
+			}
+		}()
+	}
+	return tokenFeed
+}
+
+// ClosedTokens3 replaces mesos-go's backoff.Notifier: a token is always available
+// at once (no real-time backoff inside the controlled world).
+func ClosedTokens3(_, _ time.Duration, _ <-chan struct{}) <-chan struct{} { return tokens() }
+
+// ClosedTokens4 replaces backoff.BurstNotifier.
+func ClosedTokens4(_ int, _, _ time.Duration, _ <-chan struct{}) <-chan struct{} { return tokens() }
 
 // ThreadID returns the id of the running thread (-1 outside).
 func ThreadID() int {
